@@ -295,7 +295,7 @@ func (in *c06inst) cfg() string { return in.kind + "/" + in.backend }
 func (in *c06inst) Close() { in.world.close() }
 
 func (in *c06inst) Key() string {
-	return core.VerifDumpJSON(in.world.loc.VerifState()) + "|" + lib.Canon(in.world.durable())
+	return core.VerifKeyJSON(in.world.loc.VerifState()) + "|" + lib.Canon(in.world.durable())
 }
 
 func (in *c06inst) Apply(opi int) *lib.Violation {
